@@ -600,3 +600,207 @@ func ewFloatDivZeroModel(o *ewObs, eq func(a, b interface{}) bool) bool {
 	}
 	return dev > 0
 }
+
+// ---- the mode-aware judge (C07, C11, C12, C16, C20) ----
+
+type ewPolicy struct {
+	eq          func(a, b interface{}) bool
+	mustSupport bool // the (op, dtype) pair must be served: a refusal is a violation
+	sigDtype    bool // put the exact dtype (not its class) into signatures
+	refusalOK   bool // the property lets the library refuse this layout/configuration
+	sigExtra    string
+}
+
+func ewSupported(sp ewSpec) bool {
+	t := sp.T
+	switch sp.Family {
+	case "arith":
+		return model.BinSupported(sp.Op, t)
+	case "cmp":
+		switch sp.Op {
+		case "ElEq", "ElNe":
+			return model.IsNumber(t) // bool/string: refused or correct
+		}
+		return model.IsInt(t) || model.IsFloat(t)
+	case "unary":
+		switch sp.Op {
+		case "Neg", "Square", "Cube", "Abs", "Sign", "Clamp":
+			return model.IsFloat(t) || model.IsSigned(t)
+		case "Apply":
+			return true
+		}
+		return model.IsFloat(t)
+	}
+	return false
+}
+
+// ewDefinedFor says whether the one generic definition exists at all for (op, dtype).
+func ewDefinedFor(sp ewSpec) bool {
+	z := model.One(sp.T)
+	if !model.IsNumber(sp.T) {
+		z = gen.Ramp(sp.T, 1, 1)[0]
+	}
+	switch sp.Family {
+	case "arith":
+		_, ok := model.Bin(sp.Op, z, z)
+		return ok
+	case "cmp":
+		_, ok := model.Cmp(sp.Op, z, z)
+		return ok
+	case "unary":
+		if sp.Op == "Apply" {
+			return true
+		}
+		if sp.Op == "Clamp" {
+			return model.IsInt(sp.T) || model.IsFloat(sp.T)
+		}
+		_, ok := model.Unary(sp.Op, z)
+		return ok
+	}
+	return false
+}
+
+// ewJudge decides one observation. It returns true when the case was conclusive.
+func ewJudge(c *core.Ctx, o *ewObs, pol ewPolicy) bool {
+	sp := o.sp
+	if o.precond != "" {
+		if o.precond != "no-such-method" && o.precond != "no-second-tensor" {
+			c.Inconclusive(o.precond)
+		}
+		return false
+	}
+	if o.A.op.Layout != sp.LayA || (o.B != nil && o.B.op.Layout != sp.LayB) || (o.D != nil && o.D.op.Layout != sp.Dest) {
+		return false
+	}
+	dc := dtypeClass(sp.T)
+	if pol.sigDtype {
+		dc = model.Name(sp.T)
+	}
+	lp := layoutPairClass(sp.LayA, sp.LayB)
+	viol := func(symptom string, want, got interface{}) {
+		parts := []string{sp.Op, sp.Form, lp, sp.Mode}
+		if sp.Dest != "" {
+			parts = append(parts, "dest="+sp.Dest)
+		}
+		parts = append(parts, dc, symptom)
+		if pol.sigExtra != "" {
+			parts = append(parts, pol.sigExtra)
+		}
+		c.Violation(core.Sig(parts...), sp.caseKey(), sp.desc(), want, got)
+	}
+	hasUndefined := false
+	for _, d := range o.defined {
+		if !d {
+			hasUndefined = true
+		}
+	}
+	// which tensor is the designated destination?
+	var dest *ewTensorObs
+	destName := "fresh"
+	switch sp.Mode {
+	case "unsafe", "reuseA", "reuseA-same":
+		dest, destName = o.A, "a"
+	case "reuseB":
+		dest, destName = o.B, "b"
+	case "reuse", "incr", "reuse-bool", "reuse-same":
+		dest, destName = o.D, "dest"
+	}
+	destLay := sp.Dest
+	switch sp.Mode {
+	case "reuseA", "reuseA-same":
+		destLay = sp.LayA
+	case "reuseB":
+		destLay = sp.LayB
+	}
+	// frame: every tensor other than the destination is bit-identical, and nothing outside any tensor's element set changed
+	for name, t := range map[string]*ewTensorObs{"a": o.A, "b": o.B, "dest": o.D} {
+		if t == nil {
+			continue
+		}
+		if len(t.outside) > 0 {
+			viol("outside-"+name+"-changed", "bytes outside the tensor untouched", fmt.Sprintf("%d positions, first %v", len(t.outside), t.outside[:min(len(t.outside), 6)]))
+			return true
+		}
+		if t == o.A && sp.Mode == "incr" && sp.Family == "arith" && len(o.want.V) == 1 && t.metaDif == "" && pol.eq(t.after.V[0], o.want.V[0]) {
+			// deviation hypothesis (KF): with single-element operands the increment kernels compute a op b in a's own buffer
+			c.Violation(core.Sig("incr", "single-element", "operand-a-overwritten-with-result"), sp.caseKey(), sp.desc(), "a untouched", fmt.Sprint("a became ", t.after.V[0]))
+			return true
+		}
+		if t != dest && !t.untouched() {
+			viol("non-destination-"+name+"-changed", name+" untouched", fmt.Sprint(t.changed[:min(len(t.changed), 6)], " ", t.metaDif))
+			return true
+		}
+	}
+	supported := ewDefinedFor(sp)
+	refused := o.panicked || o.err != nil
+	if refused {
+		msg := o.pmsg
+		if o.err != nil {
+			msg = o.err.Error()
+		}
+		// a refusal must not have written the destination either (integer zero-divisor reports excepted: they write by design)
+		if dest != nil && !dest.untouched() && !hasUndefined {
+			viol("refused-after-writing", "a refusal writes nothing", msg)
+			return true
+		}
+		switch {
+		case !supported:
+			c.Refused("unsupported:" + sp.Op + ":" + dc)
+		case hasUndefined:
+			c.Refused("zero-divisor")
+		case pol.refusalOK:
+			c.Refused("allowed:" + sp.Op + ":" + lp)
+		case destLay != "" && destLay != gen.LC && destLay != gen.LMS && destLay != gen.LMT && destLay != gen.LMSS && destLay != gen.LF && destLay != gen.LFconv:
+			// a view (or lazily transposed tensor) as destination: the statement neither allows nor forbids refusing it
+			c.Refused("view-destination:" + sp.Op + ":" + destLay)
+		case !ewSupported(sp) && !pol.mustSupport:
+			c.Refused("optional-type:" + sp.Op + ":" + dc)
+		case o.panicked:
+			viol("panic", "a result", msg)
+		default:
+			viol("refused-valid-call", "a result", msg)
+		}
+		return true
+	}
+	if !supported {
+		viol("computed-unsupported", "a refusal", "a result")
+		return true
+	}
+	// identity of the returned tensor
+	if o.resIs != destName {
+		viol("wrong-result-identity", destName, o.resIs)
+		return true
+	}
+	if destName == "fresh" {
+		if overlaps(o.res, o.A.op.Root) || (o.B != nil && overlaps(o.res, o.B.op.Root)) {
+			viol("fresh-result-shares-storage", "fresh storage", "overlaps an operand")
+			return true
+		}
+	}
+	want := o.want
+	if sp.Mode == "incr" {
+		v := make([]interface{}, len(want.V))
+		for i := range v {
+			v[i], _ = model.Bin("Add", o.destInit.V[i], want.V[i])
+		}
+		want = &model.ND{T: want.T, Shape: want.Shape, V: v}
+	}
+	if sym, detail := ewCompare(o, want, pol.eq); sym != "" {
+		if sym == "wrong-values" && ewFloatDivZeroModel(o, pol.eq) {
+			c.Violation(core.Sig("Div", "float", "zero-divisor-gives-+Inf"), sp.caseKey(), sp.desc(), short(want.V), detail)
+			return true
+		}
+		if h := ewHypothesis(o, pol.eq); h != "" && sp.Mode != "incr" {
+			sym = h
+		}
+		viol(sym, short(want.V), detail)
+		return true
+	}
+	// the destination's own memory holds the delivered values (the view and its parent agree)
+	if dest != nil {
+		if e := gen.ReadMatchesBy(dest.op.D, want, pol.eq); e != nil {
+			viol("destination-does-not-hold-result", short(want.V), e.Error())
+		}
+	}
+	return true
+}
